@@ -1,5 +1,7 @@
 package x448
 
+import fp "github.com/cloudflare/circl/math/fp448"
+
 // C06: X448 input handling equals RFC 7748 and the flag is false exactly for u mod p in {0, 1, p-1}.
 
 const zzP448 = "0xfffffffffffffffffffffffffffffffffffffffffffffffffffffffeffffffffffffffffffffffffffffffffffffffffffffffffffffffff"
@@ -56,4 +58,20 @@ func ZZ_C06_x448_Shared_flag() {
 	for i := 0; i < Size; i++ {
 		zzAssert(public[i] == pub0[i] && secret[i] == sec0[i], "operands unchanged")
 	}
+}
+
+// the value written by the ladder's final conversion is the canonical representative (< p):
+// RFC 7748 outputs are reduced encodings (inversion as an uninterpreted function, real Mul/ToBytes)
+
+//zz:replace math/fp448.Inv set=invuf
+func zzStubInv(z, x *fp.Elt) { copy(z[:], zzUF("fp448.inv", fp.Size, x[:])) }
+
+//zz: prop=C06 tier=quick backend=lia use=invuf timeout=300
+func ZZ_C06_x448_toAffine_canonical() {
+	var x, z fp.Elt
+	zzFillLimbs("x", x[:])
+	zzFillLimbs("z", z[:])
+	var k [fp.Size]byte
+	toAffine(&k, &x, &z)
+	zzAssert(zzWLt(zzWLE(k[:]), zzWConst(zzP448)), "ladder output is the canonical representative (< p)")
 }
